@@ -151,7 +151,7 @@ Definition bd_open (klen : nat) (h : bd_bytes) : bd_open_res :=
     let body := skipn 4 h in
     if sz <? 0 then BdOpenPanic
     else if sz =? 0 then BdOpened [] body           (* Read into an empty slice: 0, nil *)
-    else if Nat.ltb (length body) (Z.to_nat sz) then BdOpenErr   (* EOF or short read *)
+    else if Z.of_nat (length body) <? sz then BdOpenErr   (* EOF or short read *)
     else BdOpened (firstn (Z.to_nat sz) body) (skipn (Z.to_nat sz) body).
 
 (* ---------- Read of one record from the data file ---------- *)
@@ -165,6 +165,7 @@ Inductive bd_read_res :=
 
 Definition bd_read_at (data : bd_bytes) (off : Z) : bd_read_res :=
   if off <? 0 then BdReadErr                          (* Seek: invalid argument *)
+  else if Z.of_nat (length data) <? off then BdReadErr  (* Seek past the end, then EOF *)
   else
     let d := skipn (Z.to_nat off) data in
     if Nat.ltb (length d) 4 then BdReadErr
@@ -172,7 +173,7 @@ Definition bd_read_at (data : bd_bytes) (off : Z) : bd_read_res :=
       let dlen := bd_signed 32 (bd_unle (firstn 4 d)) in
       let p := skipn 4 d in
       if dlen <? 0 then BdReadPanic
-      else if Nat.ltb (length p) (Z.to_nat dlen) then BdReadErr   (* io.ReadFull *)
+      else if Z.of_nat (length p) <? dlen then BdReadErr   (* io.ReadFull *)
       else BdRec (firstn (Z.to_nat dlen) p).
 
 Definition bd_read_with (look : bd_lookup) (data : bd_bytes) : bd_read_res :=
